@@ -48,7 +48,10 @@ def havoc_value(I, v, name):
 
 
 def havoc_loop_state(I, st_body, frame, spec):
-    names = sorted(I.assigned_names(st_body))
+    names = set(I.assigned_names(st_body))
+    if spec is not None:
+        names |= set(spec.retype)
+    names = sorted(names)
     for nm in names:
         cur = frame.lookup(nm)
         if cur is None:
@@ -70,6 +73,19 @@ def havoc_loop_state(I, st_body, frame, spec):
             I.registry.havoc_ghost(I, g)
 
 
+def retype_at_entry(I, spec, frame):
+    """a concrete list that the loop body extends (declared under `retype`) becomes a symbolic list holding the same
+    elements before the invariants are first evaluated"""
+    for nm, ty in spec.retype.items():
+        cur = frame.lookup(nm)
+        if cur is not None and cur.kind == 'clist' and isinstance(ty, tuple) and ty[0] == 'list':
+            lt = TY.list_theory(TY.smt_sort(ty[1]))
+            t = lt.lempty
+            for e in cur.t:
+                t = lt.lapp(t, e.t)
+            frame.vars[nm] = SV('slist', t, extra={'elem': ty[1]})
+
+
 def check_invariants(I, spec, frame, key, n, phase):
     from .contract import eval_spec
     for name, inv in spec.invariants.items():
@@ -89,6 +105,7 @@ def exec_while(I, st, frame):
     spec = I.registry.loop_spec(I, key, n)
     if spec is None:
         I.oos(st, f"while loop {n} of {key} has no invariant")
+    retype_at_entry(I, spec, frame)
     check_invariants(I, spec, frame, key, n, 'init')
     ch = I.path.branch(2)
     havoc_loop_state(I, st.body + [ast.Expr(st.test)], frame, spec)
@@ -100,6 +117,9 @@ def exec_while(I, st, frame):
     if ch == 0:
         g = I.eval(st.test, frame)
         I.path.assume(I.truth(g, st.test))
+        for nm in list(frame.vars):
+            if not nm.startswith('pre_'):
+                frame.vars['pre_' + nm] = frame.vars[nm]
         try:
             I.exec_block(st.body, frame)
         except BreakEx:
@@ -107,6 +127,8 @@ def exec_while(I, st, frame):
         except ContinueEx:
             pass
         add_hints(I, spec.hints_end, frame)
+        for sname, sexpr in spec.step.items():
+            I.path.oblige(f"{key}:loop{n}:step:{sname}", eval_spec(I, sexpr, frame, f"{key}:loop{n}:step:{sname}"))
         check_invariants(I, spec, frame, key, n, 'preserved')
         if var0 is not None:
             var1 = as_int_term(_spec_val(I, spec.decreases, frame))
@@ -159,6 +181,8 @@ def exec_for(I, st, frame):
     idx_name = spec.index or '_i'
     length, elem_at = sequence_view(I, seq, st)
     frame.vars[idx_name] = mk_int(0)
+    retype_at_entry(I, spec, frame)
+    add_hints(I, spec.hints, frame)          # lemma instances are also available for the initial check (index 0)
     check_invariants(I, spec, frame, key, n, 'init')
     ch = I.path.branch(2)
     havoc_loop_state(I, st.body, frame, spec)
